@@ -28,7 +28,7 @@ package certificate
 //@ spec func CertLenBytes(c *Certificate) []byte { return c.len }
 
 //@ contract ReadCertificate(data []byte) (certificate *Certificate, remainder []byte, err error)
-//@   ensures @C08 fresh(certificate.kind) && fresh(certificate.len) && fresh(certificate.payload) && disjoint(certificate.kind, certificate.len, certificate.payload)
+//@   ensures @C08 @C18 fresh(certificate.kind) && fresh(certificate.len) && fresh(certificate.payload) && disjoint(certificate.kind, certificate.len, certificate.payload)
 //@   ensures @C03 @C01 (err == nil) == (len(data) >= 3 && u16(data[1:3]) <= len(data)-3)
 //@   ensures @C03 err != nil ==> certificate == nil && same(remainder, data)
 //@   ensures @C01 @C03 @C18 err == nil ==> CertInv(certificate)
